@@ -92,3 +92,9 @@ CLAIMS["C16"] = dict(
     note="Trusted: VTA call graph for handler effects; the decision-path extraction understands ==, HasPrefix, HasSuffix and last-segment tests on r.Method / r.URL.Path (anything else is an opaque test, both branches feasible). Two genuine instances (RAG pipeline routes) are listed in known_findings.json.",
     technique="static analysis: route-table × call-graph effect × policy-model (predicate abstraction of the middleware's SSA, three-valued evaluation on route patterns); taint-style provenance of index arguments",
 )
+CLAIMS["C19"] = dict(
+    ref="DESIGN.md §4 C19",
+    text="Decides request-discipline shapes for every registered handler: a decode error is tested, answered with 4xx and the handler returns before any engine call, and the shared strict decoder never turns an error into success (WEB-5); request-derived k, batch size and vector dimension (also per batch item) pass a comparison with the published limit on every path before the engine call, the body-size limit wraps the body-reading auth layer and recovery is outermost (WEB-6); no 4xx is written after a mutating engine call succeeded (WEB-7); an index name becomes a filesystem path only after the validator that rejects separators and dot segments (WEB-8, also in the replay arms); every distance kernel checks lengths before indexing (GRD-kernel, shared with C18). Absence of panics in general and response well-formedness are NOT decided.",
+    note="Trusted: handlers are the functions registered in the route table; request data = fields of locally decoded structs; constant HTTP statuses. One table exception (optional body of handleEndSession).",
+    technique="static analysis: per-handler SSA path queries (error-edge → 4xx → return; limit-test dominates call), taint-style sanitizer-dominates-sink for path confinement",
+)
